@@ -519,4 +519,213 @@ theorem safelyQuote_upperQuoted (s : Str) :
   show render (quoteToks (tokens (upperQuoted s))) = render ((tokens (safelyQuote s)).map upperTok)
   rw [tokens_upperQuoted, quoteToks_map_upperTok, tokens_safelyQuote]
 
+/-- an output token is never a raw space -/
+theorem outTok_not_space {U : List UInt8} {ts : List Tok} (h : OutTok U ts (.raw ' ')) : False := by
+  generalize ht : Tok.raw ' ' = t at h
+  cases h with
+  | input c _ hsp => cases ht; exact hsp rfl
+  | esc h1 h2 _ _ => cases ht
+  | ascii b hlt hk h20 =>
+    simp only [Tok.raw.injEq] at ht
+    have : (Char.ofNat b.toNat).toNat = 32 := by rw [← ht]; rfl
+    rw [toNat_ofNat_of_lt (by omega)] at this
+    exact h20 (UInt8.toNat_inj.1 (by simpa using this))
+  | high c hc =>
+    simp only [Tok.raw.injEq] at ht
+    subst ht
+    revert hc; decide
+
+/-! ### `safely_quote ∘ safely_unquote_*` is idempotent
+
+`u ∘ q ∘ u = u` only holds for inputs without raw delimiters (`safelyUnquote_quote_unquote`,
+`cleanStr`): a raw `?` of a path is quoted to `%3F`, which the unquoter then keeps.  But that
+is the only difference — `u (q x)` is `x` with such characters spelled as escapes (`harden`) —
+and `q` does not see it. -/
+
+/-- a raw ASCII character that `quote` escapes and the unquoter then keeps escaped (a raw
+delimiter or control character), spelled as that escape -/
+def harden (U : List UInt8) : Tok → Tok
+  | .raw c => if cleanRaw U c = true then .raw c else escOfByte (UInt8.ofNat c.toNat)
+  | t => t
+
+theorem not_cleanRaw {U : List UInt8} {c : Char} (h : ¬ cleanRaw U c = true) :
+    c.toNat < 0x80 ∧ quoteSafe c = false ∧ keepEsc U (UInt8.ofNat c.toNat) = true := by
+  unfold cleanRaw at h
+  by_cases hlt : c.toNat < 0x80
+  · simp only [hlt, if_true, Bool.or_eq_true, Bool.not_eq_true', not_or, Bool.not_eq_false,
+      Bool.not_eq_true] at h
+    exact ⟨hlt, h.1, h.2⟩
+  · simp [hlt] at h
+
+theorem itemOf_escOfByte_keep {U : List UInt8} {b : UInt8} (h : keepEsc U b = true) :
+    itemOf U (escOfByte b) = .lit (escOfByte b) := by
+  simp only [escOfByte, itemOf, byteOf_escOfByte, h, if_true]
+
+theorem quoteTok_harden (U : List UInt8) (t : Tok) : quoteTok (harden U t) = quoteTok t := by
+  cases t with
+  | esc h1 h2 => rfl
+  | stray => rfl
+  | raw c =>
+    simp only [harden]
+    split
+    · rfl
+    · rename_i h
+      obtain ⟨hlt, hq, _⟩ := not_cleanRaw h
+      simp only [quoteTok, hq, Bool.false_eq_true, if_false, utf8_ascii hlt, List.map_cons,
+        List.map_nil]
+      rfl
+
+theorem quoteToks_map_harden (U : List UInt8) (ts : List Tok) :
+    quoteToks (ts.map (harden U)) = quoteToks ts := by
+  simp only [quoteToks, List.flatMap_map, quoteTok_harden]
+
+theorem cleanRaw_decoded {U : List UInt8} {b : UInt8} (hlt : b.toNat < 0x80) (hk : keepEsc U b = false) :
+    cleanRaw U (Char.ofNat b.toNat) = true := by
+  have hn : (Char.ofNat b.toNat).toNat = b.toNat := toNat_ofNat_of_lt (by omega)
+  simp only [cleanRaw, hn, hlt, if_true, UInt8.ofNat_toNat, hk]
+  simp
+
+theorem itemOf_harden (U : List UInt8) (t : Tok) :
+    itemOf U (harden U t) = mapLit (harden U) (itemOf U t) := by
+  cases t with
+  | stray => rfl
+  | raw c =>
+    simp only [harden]
+    split
+    · rename_i hcl
+      simp only [itemOf]
+      split
+      · rfl
+      · simp [mapLit, harden, hcl]
+    · rename_i hcl
+      obtain ⟨hlt, hq, hk⟩ := not_cleanRaw hcl
+      rw [itemOf_escOfByte_keep hk]
+      simp only [itemOf]
+      split
+      · rename_i hsp
+        subst hsp
+        rfl
+      · simp [mapLit, harden, hcl]
+  | esc h1 h2 =>
+    simp only [harden, itemOf]
+    split
+    · rfl
+    · rename_i hk
+      split
+      · rename_i hlt
+        have hlt' : (byteOf h1 h2).toNat < 0x80 := by
+          have := UInt8.lt_iff_toNat_lt.1 hlt; simpa using this
+        split
+        · rfl
+        · simp only [mapLit, harden]
+          rw [if_pos (cleanRaw_decoded hlt' (by simpa using hk))]
+      · rfl
+
+theorem flush_map_harden (U : List UInt8) (bs : List UInt8) (hb : ∀ b ∈ bs, 0x80 ≤ b.toNat) :
+    (flush bs).map (harden U) = flush bs := by
+  apply map_eq_self
+  intro t ht
+  rcases flush_mem bs hb ht with ⟨h1, h2, rfl⟩ | ⟨c, rfl, hc⟩
+  · rfl
+  · simp only [harden]
+    rw [if_pos]
+    unfold cleanRaw
+    rw [if_neg (by omega)]
+
+theorem byte_itemOf_high {U : List UInt8} {t : Tok} {b : UInt8} (h : itemOf U t = .byte b) :
+    0x80 ≤ b.toNat := by
+  cases t with
+  | raw c => simp only [itemOf] at h; split at h <;> cases h
+  | stray => simp [itemOf] at h
+  | esc h1 h2 =>
+    simp only [itemOf] at h
+    split at h
+    · cases h
+    · split at h
+      · split at h <;> cases h
+      · rename_i hge
+        cases h
+        have : ¬ (byteOf h1 h2).toNat < 0x80 := by
+          intro h; exact hge (UInt8.lt_iff_toNat_lt.2 (by simpa using h))
+        omega
+
+theorem unquoteToks_map_harden (U : List UInt8) (ts : List Tok) :
+    unquoteToks U (ts.map (harden U)) = (unquoteToks U ts).map (harden U) := by
+  unfold unquoteToks
+  rw [assemble_mapLit (harden U) (fun b => 0x80 ≤ b.toNat) (flush_map_harden U) _ [] (by simp)
+    (by
+      intro b hb
+      simp only [List.mem_map] at hb
+      obtain ⟨t, _, ht⟩ := hb
+      exact byte_itemOf_high ht)]
+  simp only [List.map_map]
+  congr 1
+  apply List.map_congr_left
+  intro t _
+  exact itemOf_harden U t
+
+/-- quoting one canonical token and reading it again: the item of the hardened token, a raw
+non-ASCII character spelled as bytes -/
+theorem items_quoteTok_harden (U : List UInt8) (hU : AsciiSet U) (t : Tok) (hw : CanonTok t)
+    (hcl : ∀ c, t = .raw c → c ≠ ' ' ∧ staysEscaped c = false) :
+    (quoteTok t).map (itemOf U) = expand (itemOf U (harden U t)) := by
+  by_cases hh : ∃ c, t = .raw c ∧ ¬ cleanRaw U c = true
+  · obtain ⟨c, rfl, hc⟩ := hh
+    obtain ⟨hlt, hq, hk⟩ := not_cleanRaw hc
+    simp only [harden, hc, if_false, quoteTok, hq, Bool.false_eq_true, utf8_ascii hlt,
+      List.map_cons, List.map_nil, itemOf_escOfByte_keep hk]
+    rfl
+  · have hfix : harden U t = t := by
+      cases t with
+      | raw c =>
+        simp only [harden]
+        rw [if_pos]
+        cases h : cleanRaw U c with
+        | true => rfl
+        | false => exact absurd ⟨c, rfl, by simp [h]⟩ hh
+      | esc h1 h2 => rfl
+      | stray => rfl
+    rw [hfix]
+    apply items_quoteTok U hU t hw
+    intro c hc
+    obtain ⟨h1, h2⟩ := hcl c hc
+    refine ⟨h1, ?_, h2⟩
+    cases h : cleanRaw U c with
+    | true => rfl
+    | false => exact absurd ⟨c, hc, by simp [h]⟩ hh
+
+/-- **unquote, quote, unquote again** = the first result with its raw delimiters and control
+characters spelled as escapes -/
+theorem unquoteToks_quote_unquote_harden (U : List UInt8) (hpct : (0x25 : UInt8) ∈ U)
+    (hU : AsciiSet U) (ts : List Tok) (hw : ∀ t ∈ ts, WfTok t)
+    (hst : ∀ c, Tok.raw c ∈ ts → staysEscaped c = false) :
+    unquoteToks U (quoteToks (unquoteToks U ts)) = (unquoteToks U ts).map (harden U) := by
+  have hout := outTok_unquoteToks U ts hw
+  have hraw := raw_unquoteToks U hst
+  have hitems : ∀ t ∈ unquoteToks U ts,
+      (quoteTok t).map (itemOf U) = expand (itemOf U (harden U t)) := by
+    intro t ht
+    have ho := hout t ht
+    apply items_quoteTok_harden U hU t (canon_of_outTok hpct hw ho)
+    intro c hc
+    subst hc
+    have hs := hraw c ht
+    refine ⟨?_, hs⟩
+    rintro rfl
+    have := outTok_not_space ho
+    exact this
+  have e : (quoteToks (unquoteToks U ts)).map (itemOf U) =
+      (((unquoteToks U ts).map (harden U)).map (itemOf U)).flatMap expand := by
+    simp only [quoteToks, List.map_flatMap, List.flatMap_map]
+    generalize unquoteToks U ts = out at hitems
+    induction out with
+    | nil => rfl
+    | cons t r ih =>
+      simp only [List.flatMap_cons]
+      rw [hitems t (by simp), ih (fun x hx => hitems x (by simp [hx]))]
+  show assemble ((quoteToks (unquoteToks U ts)).map (itemOf U)) [] = _
+  rw [e, assemble_expand]
+  show unquoteToks U ((unquoteToks U ts).map (harden U)) = _
+  rw [unquoteToks_map_harden, unquoteToks_idem U hpct hU]
+
 end Ural.QuoteUpper
